@@ -137,6 +137,10 @@ def _gen_value0(rng, param=None, depth=0):
             return rng.choice([{"t": "dict", "v": {"K": "v", "n": 5}}, {"t": "list", "v": []}, {"t": "dict", "v": {}}])
         if c == "DataType":
             return rng.choice([{"t": "str", "v": rng.choice(["Float", "Integer", "Positive Float", "Fuzzy"])},
+                               {"t": "str", "v": rng.choice(["Float", "Integer", "Positive Float", "Fuzzy"])},
+                               # names that are not the documented ones (another case, blanks): no data type is called so
+                               {"t": "str", "v": rng.choice(["float", "FLOAT", "integer", " Float", "Float ", "PositiveFloat",
+                                                             "positive float", "fuzzy", "Positive_Integer"])},
                                {"t": "type", "v": rng.choice(["float", "int", "numpy.float64"])}])
         if c == "Data":
             return {"t": "array", "v": rng.choice(["float", "int", "masked"])}
